@@ -66,6 +66,23 @@ Theorem C03_master_rule_current :
 Proof. exact master_rule_current. Qed.
 Print Assumptions C03_master_rule_current.
 
+(** if every available rule carries the Master flag, the consulted rule is the master rule; the
+    judge checks "accepted => the rule with the Master flag accepts" on implementation traces with
+    the rule list read back from the real RuleManager state, so a flow that leaves a second,
+    non-master rule available is reported *)
+Theorem C03_selected_is_master :
+  forall (H : N -> N) (digest : N -> N -> N) (rule_validate : N -> N -> N -> N -> N -> option bool)
+         (recover : N -> N -> option N),
+  forall st ib p dec,
+  fst (origin ib) = ps_bxh st ->
+  (forall r, In r (ps_rules st (snd (origin ib))) -> r_available r = true -> r_master r = true) ->
+  verify_proof H digest rule_validate recover st ib (PdBytes p dec) = VOk ->
+  exists app r, ps_chains st (snd (origin ib)) = Some app /\ In r (ps_rules st (snd (origin ib))) /\
+                r_master r = true /\
+                rule_validate (r_addr r) (snd (origin ib)) p (ib_id ib) (a_trust app) = Some true.
+Proof. exact selected_is_master. Qed.
+Print Assumptions C03_selected_is_master.
+
 (** ... and the verdict depends on the state only through the current records of the origin, so a
     changed or logged-out rule takes effect for the next block verified against the new state *)
 Theorem C03_verify_depends_on_current :
